@@ -131,6 +131,15 @@ def classes_of(case, rm, kept=None):
     h = heaviest[0]
     if any(rm["weak"][h[0], j] for j in range(n) if j not in h):
         cl.append("weak_component_larger_than_scc")
+    weak_pieces = {}
+    for i in range(n):
+        weak_pieces.setdefault(tuple(int(j) for j in np.flatnonzero(rm["weak"][i] | (np.arange(n) == i))), 0)
+    rows_tot = [sum(int(v) for v in case["counts"][i]) for i in range(n)]
+    piece_w = {p_: sum(rows_tot[i] for i in p_) for p_ in weak_pieces}
+    if len(piece_w) >= 2:
+        heavy_piece = max(piece_w, key=lambda p_: piece_w[p_])
+        if not set(h) <= set(heavy_piece):
+            cl.append("heaviest_scc_outside_heaviest_weak_piece")
     if len(h) == n:
         cl.append("keeps_all")
     if len(h) == 1:
@@ -268,7 +277,9 @@ def call(case, renumber=None, container=None, variant=None, x=None):
 
 def as_py(D):
     """Dense result -> nested python numbers (exact for the integer data generated here)."""
-    return [[(int(v) if float(v) == int(v) else float(v)) for v in row] for row in D.tolist()]
+    # (python ints stay python ints: 2**53 + 1 is not a float)
+    return [[(v if isinstance(v, int) and not isinstance(v, bool) else int(v) if float(v).is_integer() else float(v)) for v in row]
+            for row in D.tolist()]
 
 
 def kept_of(to_orig):
@@ -302,7 +313,44 @@ NS_BIG = [15, 16, 17, 18, 20, 24, 31, 32, 33, 40]      # beyond small-array spec
 def count_matrix(draw, max_n=8):
     n = draw(st.sampled_from(NS_SMALL if max_n <= 8 else NS_LARGE if max_n <= 14 else NS_BIG))
     thr = draw(st.sampled_from([1, 1, 2, 2, 3, 4]))
-    mode = draw(st.sampled_from(["blocks", "blocks", "blocks", "random"]))
+    mode = draw(st.sampled_from(["blocks", "blocks", "blocks", "random", "trap", "huge_near_tie"]))
+    if mode == "trap" and n >= 5:
+        # three cycles A, B, C: A feeds B through a one-way link (one weakly connected piece, two components), C stands
+        # alone and is heavier than A and than B, yet lighter than A and B together: the heaviest component is NOT in
+        # the heaviest weakly connected piece
+        perm = draw(st.permutations(list(range(n))))
+        sa = draw(st.integers(2, max(2, (n - 1) // 2)))
+        sb = draw(st.integers(1, max(1, n - sa - 2)))
+        A_, B_, C_ = list(perm[:sa]), list(perm[sa:sa + sb]), list(perm[sa + sb:])
+        Cm = [[0] * n for _ in range(n)]
+
+        def cyc(mem, w):
+            if len(mem) == 1:
+                Cm[mem[0]][mem[0]] = w
+            for a_ in range(len(mem)):
+                if len(mem) > 1:
+                    Cm[mem[a_]][mem[(a_ + 1) % len(mem)]] = w
+        wa = thr + draw(st.integers(0, 5))
+        cyc(A_, wa)
+        cyc(B_, wa)
+        Cm[A_[0]][B_[0]] = thr                                   # one-way link inside the heavy piece
+        ta, tb = sum(sum(Cm[i]) for i in A_), sum(sum(Cm[i]) for i in B_)
+        target = (max(ta, tb) + ta + tb) // 2 + 1
+        cyc(C_, max(thr, -(-target // max(1, len(C_)))))
+        return Cm, thr, "trap"
+    if mode == "huge_near_tie" and n >= 4:
+        # two components whose totals exceed 2**53 and differ by one or two counts (exact in integers, equal as doubles)
+        perm = draw(st.permutations(list(range(n))))
+        big = draw(st.sampled_from([2 ** 52, 2 ** 53, 2 ** 60]))
+        Cm = [[0] * n for _ in range(n)]
+        a0, a1, b0, b1 = perm[0], perm[1], perm[2], perm[3]
+        Cm[a0][a1], Cm[a1][a0] = big, big
+        Cm[b0][b1], Cm[b1][b0] = big, big + draw(st.sampled_from([1, 2, -1]))
+        for k in perm[4:]:
+            Cm[k][k] = draw(st.integers(0, 9))
+        return Cm, thr, "huge_near_tie"
+    if mode in ("trap", "huge_near_tie"):
+        mode = "blocks"
     u = draw(st.lists(st.integers(0, 99), min_size=n * n, max_size=n * n))
     v = draw(st.lists(st.integers(0, 3), min_size=n * n, max_size=n * n))
     C = [[0] * n for _ in range(n)]
@@ -400,6 +448,8 @@ def trim_case(draw, max_n=8, containers=None, renumber=None):
     else:
         container = draw(st.sampled_from(containers))
     dtype = draw(st.sampled_from(DTYPES))
+    if mode == "huge_near_tie":
+        dtype = "int64"
     if np.issubdtype(np.dtype(dtype), np.integer) and np.dtype(dtype).itemsize < 8 and draw(st.integers(0, 2)) == 0:
         # every entry representable in the (narrow) dtype, row totals far beyond its range
         top = max(max(r) for r in C)
@@ -636,7 +686,8 @@ def assigns_case(draw, max_states=7, max_traj=6, max_len=14):
             "how": draw(st.sampled_from(["padded", "padded_extra", "ragged"])),
             "dtype": draw(st.sampled_from(["int64", "int32"])),
             "method": draw(st.sampled_from(["normalize", "normalize_by_name", "passthrough"])),
-            "ctor": draw(st.sampled_from(["init", "from_assignments"]))}
+            "ctor": draw(st.sampled_from(["init", "from_assignments"])),
+            "edit": draw(st.sampled_from([None, None, {"to": 0}, {"to": 1}, {"to": 2}]))}
 
 
 def build_assigns(case):
@@ -654,8 +705,38 @@ def _passthrough(C, **kw):
     return C, C, None
 
 
+def _edited(case):
+    """(trajs after the in-place edit, function applying the edit to the built assignments) - states of the highest id
+    are lumped into another state with a mask assignment on the assignments object before it is fitted"""
+    trajs = case["trajs"]
+    ed = case.get("edit")
+    if not ed:
+        return trajs, (lambda a: a)
+    top = max(max(t) for t in trajs)
+    tgt = ed["to"] % (top + 1)
+    if tgt == top:
+        return trajs, (lambda a: a)
+    new = [[tgt if v == top else v for v in t] for t in trajs]
+
+    def apply(a):
+        a[a == top] = tgt
+        return a
+    return new, apply
+
+
 def run_msm(case):
     """'a model fitted with trimming reports the same mapping'"""
+    trajs, apply_edit = _edited(case)
+    orig_build = build_assigns
+    case_b = dict(case)
+    lag = case["lag"]
+
+    def build_assigns_edited(c):
+        return apply_edit(orig_build(c))
+    return _run_msm(dict(case, trajs=trajs), build_assigns_edited, case_b)
+
+
+def _run_msm(case, build_assigns, case_for_build):
     trajs, lag = case["trajs"], case["lag"]
     obs = max(max(t) for t in trajs) + 1
     n = case["max_n_states"] or obs
@@ -670,12 +751,12 @@ def run_msm(case):
         kw.pop("max_n_states")
     if case["ctor"] == "init":
         m = MSM(**kw)
-        m.fit(build_assigns(case))
+        m.fit(build_assigns(case_for_build))
     else:
-        m = MSM.from_assignments(build_assigns(case), **kw)
+        m = MSM.from_assignments(build_assigns(case_for_build), **kw)
     got = norm_mapping(m.mapping_)
     # differential part of the sentence: same mapping as the function on the function's counts
-    fC = assigns_to_counts(build_assigns(case), lag, max_n_states=case["max_n_states"])
+    fC = assigns_to_counts(build_assigns(case_for_build), lag, max_n_states=case["max_n_states"])
     require(as_py(dense(fC)) == R, "assigns_to_counts differs from the literal pair count (see C03)",
             got=as_py(dense(fC)), want=R)
     fmap, fT = trim_disconnected(fC)
